@@ -56,14 +56,14 @@ BASE = {"intalu": 0, "initorder": 1000000, "conv": 2000000, "minigo": 3000000}
 def part_intalu(ctx):
     wd = ctx.stage("mc_intalu", FAMS)
     rig.write_cfg(wd / "MC_IntALU.cfg", constants={"Tier": ctx.tier}, invariants=["ImplMeetsRef", "ConstFormSame"])
-    r = ctx.tlc(wd, "MC_IntALU", workers=rig.NCPU, timeout=1500, extra=["-continue"], coverage=not ctx.quick)
+    r = ctx.tlc(wd, "MC_IntALU", workers=rig.NCPU, timeout=1500, extra=["-continue"])
     if "Model checking completed" not in r.out:
         raise Infra(f"MC_IntALU did not complete: {wd}/MC_IntALU.out\n" + rig.tail(r.out, 25))
     cases = rig.read_ndjson(wd / "cases.ndjson")
     info = {"states": r.distinct, "transitions": r.generated, "mc_wall_s": round(r.wall, 1), "cases": len(cases),
             "mc_invariants": ["ImplMeetsRef", "ConstFormSame"]}
-    if not ctx.quick:
-        info["actions_never_taken"] = r.coverage_zero()
+    # (no -coverage run: TLC's coverage bookkeeping over the recursive BigInt operators exhausts the heap; every
+    #  MC_* module of this family has a single Next action, which is taken: states > roots)
     # model-level counterexamples (diagnostic): classify the violating states printed by -continue
     viol = {}
     for m in re.finditer(r"Invariant (\w+) is violated\.(.*?)(?=\nError: Invariant|\nModel checking completed|\Z)", r.out, re.S):
@@ -93,9 +93,7 @@ def part_initorder(ctx):
     for k, (nv, nf, me) in enumerate(runs):
         wd = ctx.stage(f"mc_initorder_{k}", FAMS)
         rig.write_cfg(wd / "MC_InitOrder.cfg", constants={"NV": nv, "NF": nf, "MaxEdges": me}, invariants=["ImplMeetsRef", "RefTotal"])
-        r = ctx.tlc(wd, "MC_InitOrder", workers=rig.NCPU, timeout=1500, extra=["-continue"], coverage=not ctx.quick)
-        if not ctx.quick:
-            info.setdefault("actions_never_taken", []).extend(r.coverage_zero())
+        r = ctx.tlc(wd, "MC_InitOrder", workers=rig.NCPU, timeout=1500, extra=["-continue"])
         if "Model checking completed" not in r.out:
             raise Infra(f"MC_InitOrder did not complete: {wd}/MC_InitOrder.out\n" + rig.tail(r.out, 25))
         cs = rig.read_ndjson(wd / "cases.ndjson")
@@ -707,7 +705,6 @@ def run(ctx, replay_cases=None):
         states=sum(i.get("states", 0) for i in infos.values()),
         transitions=sum(i.get("transitions", 0) for i in infos.values()),
         parts=infos,
-        actions_never_taken=sorted({a for i in infos.values() for a in i.get("actions_never_taken", [])}),
         evaluations=len(allobs), traces_validated_against_impl=len(allobs),
         distinct_nontrivial=len({json.dumps(case_from_obs(o), sort_keys=True) + o.get("form", "") for o in allobs if nontrivial(o)}),
         rule="minigo: seeded programs of 9 shapes (labelled loops, switch/fallthrough, goto, closures, array/struct/pointer values, slice aliasing, maps, strings, run-time faults), expected output computed by TLC; non-trivial = more than one printed line or a panic. conv: all conversions of the 12-value rune set / strings of <= MaxPieces well- and ill-formed UTF-8 pieces; non-trivial = a non-ASCII value is involved. initorder: every dependency graph of the bounded space, one program each; non-trivial = at least one edge. intalu: TLC-exported space (all kinds x operators x boundary operands x shift counts), each case in the source forms var / literal operand / op-assignment / if-condition; non-trivial = result wrapped, shifted out, divided, converted or panicked. One record per (case, form).",
